@@ -56,6 +56,23 @@ func parse(path string) *ast.File {
 	if err != nil {
 		die("%v", err)
 	}
+	for _, d := range f.Decls {
+		if gd, ok := d.(*ast.GenDecl); ok && gd.Tok == token.VAR {
+			for _, sp := range gd.Specs {
+				if vs, ok := sp.(*ast.ValueSpec); ok {
+					for i, n := range vs.Names {
+						if i < len(vs.Values) {
+							if cl, ok := vs.Values[i].(*ast.CompositeLit); ok && len(cl.Elts) > 0 {
+								if _, keyed := cl.Elts[0].(*ast.KeyValueExpr); keyed {
+									keyedTables[n.Name] = cl
+								}
+							}
+						}
+					}
+				}
+			}
+		}
+	}
 	return f
 }
 
@@ -118,6 +135,47 @@ func exprText(e ast.Expr) string {
 }
 
 // the single top-level `switch tag { case A, B: return X ... default: return Y }` of a function
+var fullReturnText bool
+
+// package-level keyed composite literals of the files read so far, by variable name (filled by parse)
+var keyedTables = map[string]*ast.CompositeLit{}
+
+func lookupTable(fd *ast.FuncDecl) (rows [][2]string, def string, ok bool) {
+	if fd.Type.Params == nil || len(fd.Type.Params.List) == 0 || len(fd.Type.Params.List[0].Names) == 0 {
+		return nil, "", false
+	}
+	var tbl *ast.CompositeLit
+	ast.Inspect(fd.Body, func(n ast.Node) bool {
+		if ix, isIx := n.(*ast.IndexExpr); isIx && tbl == nil {
+			if id, isId := ix.X.(*ast.Ident); isId {
+				if t, found := keyedTables[id.Name]; found {
+					tbl = t
+				}
+			}
+		}
+		return true
+	})
+	if tbl == nil {
+		return nil, "", false
+	}
+	for _, e := range tbl.Elts {
+		kv, isKV := e.(*ast.KeyValueExpr)
+		if !isKV {
+			return nil, "", false
+		}
+		v := anyExprText(kv.Value)
+		if call, isCall := kv.Value.(*ast.CallExpr); isCall && !fullReturnText {
+			v = anyExprText(call.Fun)
+		}
+		rows = append(rows, [2]string{anyExprText(kv.Key), v})
+	}
+	def = "nil"
+	if fd.Name.Name == "getMatchExprValue" {
+		def = "<the literal as written>"
+	}
+	return rows, def, len(rows) > 0
+}
+
 func switchTable(fd *ast.FuncDecl) (rows [][2]string, def string, hasDef bool) {
 	var sw *ast.SwitchStmt
 	for _, st := range fd.Body.List {
@@ -129,6 +187,11 @@ func switchTable(fd *ast.FuncDecl) (rows [][2]string, def string, hasDef bool) {
 		}
 	}
 	if sw == nil {
+		// no switch: a lookup in a package-level table written as a keyed composite literal (`var t = [...]F{Key: value, ...}` or a
+		// map), indexed by the function's parameter. Keys without an entry are the default (the zero value: nil for functions).
+		if rows, def, ok := lookupTable(fd); ok {
+			return rows, def, true
+		}
 		die("%s: no switch", fd.Name.Name)
 	}
 	for _, c := range sw.Body.List {
@@ -143,6 +206,9 @@ func switchTable(fd *ast.FuncDecl) (rows [][2]string, def string, hasDef bool) {
 				switch v := r.Results[0].(type) {
 				case *ast.CallExpr:
 					ret = exprText(v.Fun) // e.g. CoerceBool(expression.Value.Raw)
+					if fullReturnText {
+						ret = anyExprText(v)
+					}
 				default:
 					if fd.Name.Name == "getMatchExprValue" {
 						ret = "<the literal as written>" // no coercion function: how the raw literal is spelled is not prescribed
@@ -295,6 +361,23 @@ func main() {
 		var cand []*ast.FuncDecl
 		files, _ := filepath.Glob(filepath.Join(root, "*.go"))
 		sort.Strings(files)
+		funcTypeNames := map[string]bool{}
+		for _, fn := range files {
+			if strings.HasSuffix(fn, "_test.go") || strings.HasSuffix(fn, "_hooks.go") {
+				continue
+			}
+			for _, d := range parse(fn).Decls {
+				if gd, ok := d.(*ast.GenDecl); ok && gd.Tok == token.TYPE {
+					for _, sp := range gd.Specs {
+						if ts, ok := sp.(*ast.TypeSpec); ok {
+							if _, ok := ts.Type.(*ast.FuncType); ok {
+								funcTypeNames[ts.Name.Name] = true
+							}
+						}
+					}
+				}
+			}
+		}
 		for _, fn := range files {
 			if strings.HasSuffix(fn, "_test.go") || strings.HasSuffix(fn, "_hooks.go") {
 				continue
@@ -304,7 +387,12 @@ func main() {
 				if !ok || fd.Recv != nil || fd.Type.Params == nil || fd.Type.Results == nil || len(fd.Type.Params.List) != 1 || len(fd.Type.Results.List) != 1 {
 					continue
 				}
-				if _, isFn := fd.Type.Results.List[0].Type.(*ast.FuncType); isFn && anyExprText(fd.Type.Params.List[0].Type) == "reflect.Kind" {
+				rt := fd.Type.Results.List[0].Type
+				_, isFn := rt.(*ast.FuncType)
+				if id, ok := rt.(*ast.Ident); ok && funcTypeNames[id.Name] {
+					isFn = true // a named function type declared in the package
+				}
+				if isFn && anyExprText(fd.Type.Params.List[0].Type) == "reflect.Kind" {
 					cand = append(cand, fd)
 				}
 			}
@@ -312,7 +400,9 @@ func main() {
 		if len(cand) != 1 {
 			die("%d functions from reflect.Kind to a function value", len(cand))
 		}
+		fullReturnText = true // which comparison is returned is the whole expression (a constructor applied to an accessor as well as a function name)
 		rows, def, _ := switchTable(cand[0])
+		fullReturnText = false
 		emitTable("go_equality_fn", append(rows, [2]string{"default", def}))
 	})
 	section(unrec2("go_coerce_of_kind"), func() {
@@ -464,7 +554,64 @@ func main() {
 			}
 			return false
 		}
-		for _, fn := range []string{"bexpr.go", "evaluate.go", "filter.go", "options.go", "coerce.go"} {
+		// call-local types: unexported struct types of these files that no struct field and no package-level variable mentions -
+		// values of such a type live in locals, parameters and results only (an iterator, a visitor, the per-call `options`), so a
+		// write to one of its fields through a pointer is a write to the state of one call, not to anything shared between calls
+		evalFiles := []string{"bexpr.go", "evaluate.go", "filter.go", "options.go", "coerce.go"}
+		structTypes := map[string]bool{}
+		mentioned := map[string]bool{}
+		funcResult := map[string]string{} // package function or method name -> name of its first result type (through *)
+		for _, fn := range evalFiles {
+			f := parse(filepath.Join(root, fn))
+			for _, d := range f.Decls {
+				switch x := d.(type) {
+				case *ast.GenDecl:
+					for _, sp := range x.Specs {
+						switch y := sp.(type) {
+						case *ast.TypeSpec:
+							if st, ok := y.Type.(*ast.StructType); ok {
+								if !ast.IsExported(y.Name.Name) {
+									structTypes[y.Name.Name] = true
+								}
+								ast.Inspect(st, func(n ast.Node) bool {
+									if id, ok := n.(*ast.Ident); ok {
+										mentioned[id.Name] = true
+									}
+									return true
+								})
+							}
+						case *ast.ValueSpec:
+							if x.Tok == token.VAR {
+								ast.Inspect(y, func(n ast.Node) bool {
+									if id, ok := n.(*ast.Ident); ok {
+										mentioned[id.Name] = true
+									}
+									return true
+								})
+							}
+						}
+					}
+				case *ast.FuncDecl:
+					if x.Type.Results != nil && len(x.Type.Results.List) > 0 {
+						t := x.Type.Results.List[0].Type
+						if st, ok := t.(*ast.StarExpr); ok {
+							t = st.X
+						}
+						if id, ok := t.(*ast.Ident); ok {
+							funcResult[x.Name.Name] = id.Name
+						}
+					}
+				}
+			}
+		}
+		localType := func(t ast.Expr) bool {
+			if st, ok := t.(*ast.StarExpr); ok {
+				t = st.X
+			}
+			id, ok := t.(*ast.Ident)
+			return ok && structTypes[id.Name] && !mentioned[id.Name]
+		}
+		for _, fn := range evalFiles {
 			f := parse(filepath.Join(root, fn))
 			for _, d := range f.Decls {
 				fdecl, ok := d.(*ast.FuncDecl)
@@ -472,19 +619,32 @@ func main() {
 					continue
 				}
 				name := fdecl.Name.Name
-				own := map[string]bool{} // identifiers that denote the function's own copy of a struct
-				if fdecl.Type.Params != nil {
-					for _, p := range fdecl.Type.Params.List {
-						if !refType(p.Type) {
+				own := map[string]bool{} // identifiers that denote the function's own copy of a struct, or a value of a call-local type
+				for _, fl := range []*ast.FieldList{fdecl.Recv, fdecl.Type.Params} {
+					if fl == nil {
+						continue
+					}
+					for _, p := range fl.List {
+						if !refType(p.Type) || localType(p.Type) {
 							for _, n := range p.Names {
 								own[n.Name] = true
 							}
 						}
 					}
 				}
-				// locals: x := T{...}  /  x := y (y own)  /  var x T
+				// locals: x := T{...}  /  x := y (y own)  /  var x T; parameters of function literals like those of the function
 				ast.Inspect(fdecl.Body, func(n ast.Node) bool {
 					switch x := n.(type) {
+					case *ast.FuncLit:
+						if x.Type.Params != nil {
+							for _, p := range x.Type.Params.List {
+								if !refType(p.Type) || localType(p.Type) {
+									for _, n := range p.Names {
+										own[n.Name] = true
+									}
+								}
+							}
+						}
 					case *ast.AssignStmt:
 						if x.Tok == token.DEFINE && len(x.Lhs) == len(x.Rhs) {
 							for i, l := range x.Lhs {
@@ -499,6 +659,17 @@ func main() {
 									}
 								case *ast.Ident:
 									if own[r.Name] {
+										own[id.Name] = true
+									}
+								case *ast.UnaryExpr: // &T{...} of a call-local type
+									if cl, ok := r.X.(*ast.CompositeLit); ok && r.Op == token.AND && localType(cl.Type) {
+										own[id.Name] = true
+									}
+								case *ast.CallExpr: // new(T) or a constructor of a call-local type
+									ft := anyExprText(r.Fun)
+									if ft == "new" && len(r.Args) == 1 && localType(r.Args[0]) {
+										own[id.Name] = true
+									} else if t, ok := funcResult[ft]; ok && structTypes[t] && !mentioned[t] {
 										own[id.Name] = true
 									}
 								}
@@ -784,6 +955,14 @@ func main() {
 						if sel, ok := x.Fun.(*ast.SelectorExpr); ok && sel.Sel.Name == "MapKeys" && len(x.Args) == 0 {
 							return true
 						}
+						switch ft { // standard-library functions documented to return a new slice or map
+						case "slices.Clone", "slices.Concat", "slices.Collect", "slices.Sorted", "slices.SortedFunc", "slices.AppendSeq", "maps.Clone", "maps.Collect",
+							"strings.Split", "strings.Fields", "strings.SplitN", "bytes.Clone":
+							if ft == "slices.AppendSeq" {
+								return len(x.Args) > 0 && freshExpr(x.Args[0])
+							}
+							return true
+						}
 						// a conversion of nil: []T(nil)
 						if len(x.Args) == 1 && containerType(x.Fun) {
 							if id, ok := x.Args[0].(*ast.Ident); ok && id.Name == "nil" {
@@ -869,7 +1048,8 @@ func main() {
 					ft := anyExprText(call.Fun)
 					var target ast.Expr
 					switch {
-					case (ft == "append" || ft == "copy" || ft == "delete" || ft == "reflect.Append" || ft == "reflect.AppendSlice" || ft == "reflect.Copy" || strings.HasPrefix(ft, "sort.")) && len(call.Args) > 0:
+					case (ft == "append" || ft == "copy" || ft == "delete" || ft == "clear" || ft == "reflect.Append" || ft == "reflect.AppendSlice" || ft == "reflect.Copy" || strings.HasPrefix(ft, "sort.") ||
+						strings.HasPrefix(ft, "slices.Sort") || ft == "slices.Reverse" || ft == "slices.Insert" || ft == "slices.Delete" || ft == "slices.Compact" || ft == "slices.Grow" || ft == "slices.AppendSeq" || ft == "maps.Copy" || ft == "maps.DeleteFunc" || ft == "maps.Insert") && len(call.Args) > 0:
 						target = call.Args[0]
 					default:
 						if sel, ok := call.Fun.(*ast.SelectorExpr); ok && mutMethod(sel.Sel.Name) {
